@@ -190,6 +190,34 @@ func HBurst(n int) func(*Rec, grpc.ServerStream) error {
 	}
 }
 
+// HConcurrent sends n messages while a second goroutine of the handler
+// receives until the stream ends ("it is safe to have a goroutine calling
+// SendMsg and another goroutine calling RecvMsg on the same stream").  With
+// wait, the handler returns after the receiver saw the end of the stream;
+// without, straight after its last send, the receiver still pending.
+func HConcurrent(n int, wait bool) func(*Rec, grpc.ServerStream) error {
+	return func(r *Rec, ss grpc.ServerStream) error {
+		done := make(chan struct{})
+		vsched.GoNamed("hrecv-"+r.Tag, func() {
+			defer close(done)
+			for {
+				if _, err := hRecv(r, ss); err != nil {
+					return
+				}
+			}
+		})
+		for i := 0; i < n; i++ {
+			if err := hSend(r, ss, Pad(fmt.Sprintf("%s.c%d", r.Tag, i))); err != nil {
+				return err
+			}
+		}
+		if wait {
+			<-done
+		}
+		return nil
+	}
+}
+
 // HCollect reads until end of stream, then replies once (client-streaming shape).
 func HCollect(r *Rec, ss grpc.ServerStream) error {
 	n := 0
